@@ -133,8 +133,24 @@ class HistGen:
     def history(self, n_ops):
         r = self.rng
         ops = []
+        if getattr(self, "prewarm", True) and r.random() < 0.12:
+            # a transaction-id generator restored from its serialized state: decimal-length, 2^32, 2^53 and 2^63 boundaries
+            k = r.randint(1, 19)
+            ops.append("GEN %d" % r.choice([10 ** k - 2, 10 ** k - 1, 10 ** 16 - 3, 10 ** 16 + 5, (1 << 53) - 1, (1 << 53) + 1,
+                                            (1 << 32) - 2, (1 << 63) - 2, r.getrandbits(63)]))
         for _ in range(r.randint(1, 4)):
             ops.append("ADD " + self.new_order())
+        if getattr(self, "slices", True) and r.random() < 0.04 and self.at_level_price:
+            # one maker replenishing through hundreds of slices in a single sweep (per-sweep batch limits: 64, 256, 257 ...)
+            n = r.choice([63, 64, 65, 255, 256, 257, 258, 300, 520])
+            self.ts += 1
+            oid = "u%d" % self.next_id
+            self.next_id += 1
+            self.used.append(oid)
+            self.big_hidden.add(oid)
+            self.budget -= n + 1
+            ops.append("ADD " + gen.order("I", oid=oid, price=self.price, side=r.choice("BS"), ts=self.ts, tif="GTC", vis=1, hid=n - 1))
+            ops.append("MATCH %d u%d" % (1 << 40, 5000 + len(ops)))
         heavy = getattr(self, "upd_heavy", False)
         while len(ops) < n_ops:
             x = r.random()
@@ -145,7 +161,9 @@ class HistGen:
                 ops.append("ADD " + self.new_order())
             elif x < 0.58:
                 q = r.choice([1, 2, 3, 5, 8, 13, 40, 200]) if r.random() < 0.8 else r.choice([1 << 40, (1 << 64) - 1])
-                ops.append("MATCH %d u%d" % (q, 5000 + len(ops)))
+                # the taker's id is normally fresh; sometimes it is the id of an order resting at this very level
+                taker = r.choice(self.used) if (self.used and r.random() < 0.07) else "u%d" % (5000 + len(ops))
+                ops.append("MATCH %d %s" % (q, taker))
             elif x < 0.80:
                 ops.append("UPD " + self.update())
             elif x < 0.88 and self.reads:
@@ -243,7 +261,7 @@ def cmp_side(i, m, ns, diffs, tag):
     di, dm = kv(i), kv(m)
     for k in di:
         if k not in dm:
-            if k in ("built", "read", "n"):
+            if k in ("built", "read", "n", "gen", "resync"):
                 continue
             diffs.append("%s: key %s missing in model" % (tag, k))
             continue
